@@ -148,3 +148,22 @@ func (g *SparseGraph) BadCopyRowsPooled() *SparseGraph {
 	}
 	return &SparseGraph{NumberOfVertices: g.NumberOfVertices, NumberOfEdges: g.NumberOfEdges, Neighbourhoods: rows, DegreeSequence: append([]int(nil), g.DegreeSequence...)}
 }
+
+// EDGEBYTE
+func (g *DenseGraph) GoodCountEdges() int {
+	m := 0
+	for i := range g.Edges {
+		if g.Edges[i] > 0 {
+			m++
+		}
+	}
+	return m
+}
+
+func (g *DenseGraph) BadCountEdgesNumeric() int {
+	m := 0
+	for i := range g.Edges {
+		m += int(g.Edges[i])
+	}
+	return m
+}
